@@ -17,7 +17,7 @@
 From Coq Require Import List NArith Bool Lia ZifyN ZifyNat ZifyBool.
 From Frugal Require Import Bytes Wire Skip Values Desc Spec Encode Decode Tags LegacyDefs State Checks.
 From Frugal.gen Require Import Params Legacy.
-From Frugal.proofs Require Import DecodeRefines GenOk.
+From Frugal.proofs Require Import DecodeRefines.
 Import ListNotations.
 Open Scope N_scope.
 
@@ -1224,9 +1224,6 @@ Proof.
     end.
 Qed.
 
-Corollary legacy_ret_values_here : forall f a,
-  legacy_ret f a = match f with LSetMaxInlineDepth | LSetMaxInlineILSize => a | _ => 0 end.
-Proof. exact (legacy_ret_values legacy_ok_holds). Qed.
 
 (* ------------------------------------------------------------------ *)
 (* non-vacuity: a failed build is rolled back and does not poison later *)
